@@ -53,6 +53,9 @@ struct Scn {
     hosts: Vec<HostSpec>,
     steps: u64,
     acts: Vec<(u64, Act)>, // executed before step index (1-based)
+    /// simulation_duration in microseconds (None = far beyond the run); when clients are still
+    /// running past it `step` returns Err but must have advanced every clock all the same
+    duration_us: Option<u64>,
 }
 
 #[derive(Clone, Debug)]
@@ -67,6 +70,8 @@ struct Sample {
     sim_elapsed: u64,
     since_epoch: u64,
     inst: u64,
+    /// modification time (ns since UNIX_EPOCH) of a file written at this instant
+    fs_mtime: Option<u64>,
 }
 
 fn gen(seed: u64, force_tick_us: Option<u64>) -> Scn {
@@ -155,11 +160,24 @@ fn gen(seed: u64, force_tick_us: Option<u64>) -> Scn {
         hosts,
         steps,
         acts,
+        duration_us: if r.chance(0.25) { Some(r.range(s_tick(tick_us), steps * tick_us)) } else { None },
     }
 }
 
+fn s_tick(t: u64) -> u64 {
+    t / 2 + 1
+}
+
 fn sample(log: &Log<Sample>, host: usize, inc: u32, task: usize, opi: u32, phase: u32, t0: Instant) {
+    use turmoil::fs::shim::std::fs as sfs;
+    let fs_mtime = sfs::write("/clk", b"x")
+        .ok()
+        .and_then(|_| sfs::metadata("/clk").ok())
+        .and_then(|m| m.modified().ok())
+        .and_then(|m| m.duration_since(std::time::SystemTime::UNIX_EPOCH).ok())
+        .map(ns);
     log.push(Sample {
+        fs_mtime,
         host,
         inc,
         task,
@@ -244,6 +262,7 @@ struct Exec {
     /// (step n, Sim::elapsed ns, Sim::since_epoch ns) after each Ok step
     ctl: Vec<(u64, u64, u64)>,
     step_errs: u64,
+    past_duration: u64,
 }
 
 fn execute(s: &Scn) -> Exec {
@@ -254,7 +273,7 @@ fn execute(s: &Scn) -> Exec {
     b.tick_duration(tick)
         .epoch(if s.epoch_zero { std::time::SystemTime::UNIX_EPOCH } else { epoch(s.epoch_off) })
         .rng_seed(s.rng_seed)
-        .simulation_duration(Duration::from_secs(100_000));
+        .simulation_duration(s.duration_us.map(Duration::from_micros).unwrap_or(Duration::from_secs(100_000)));
     if s.random_order {
         b.enable_random_order();
     }
@@ -281,6 +300,7 @@ fn execute(s: &Scn) -> Exec {
     }
     let mut ctl = vec![];
     let mut step_errs = 0;
+    let mut past_duration = 0;
     for n in 1..=s.steps {
         // actions scheduled before step n
         for i in 0..s.hosts.len() {
@@ -306,6 +326,12 @@ fn execute(s: &Scn) -> Exec {
         }
         match util::step(&mut sim) {
             Ok(_) => ctl.push((n, ns(sim.elapsed()), ns(sim.since_epoch()))),
+            // past the configured duration with clients still running: the call reports that,
+            // after having advanced every clock like any other step
+            Err(e) if s.duration_us.is_some() && e.to_string().starts_with("Ran for duration") => {
+                past_duration += 1;
+                ctl.push((n, ns(sim.elapsed()), ns(sim.since_epoch())))
+            }
             Err(_) => step_errs += 1,
         }
     }
@@ -314,6 +340,7 @@ fn execute(s: &Scn) -> Exec {
         samples: log.take(),
         ctl,
         step_errs,
+        past_duration,
     }
 }
 
@@ -361,6 +388,17 @@ fn check(s: &Scn, ex: &Exec, out: &mut ScenarioOut) {
                 String::new(),
                 format!("host {} observed sim_elapsed {} ns in step {} (window [{}, {}])", sm.host, sm.sim_elapsed, n, (n.max(1) - 1) * t, n * t),
             );
+        }
+        if let Some(m) = sm.fs_mtime {
+            out.count("file_timestamps_observed", 1);
+            if n == 0 || m < ep + (n - 1) * t || m > ep + n * t {
+                complain(
+                    out,
+                    "file-time-window",
+                    String::new(),
+                    format!("host {} wrote a file in step {} and read back mtime {} ns; the step's window is [{}, {}] (epoch {} + sim time)", sm.host, n, m, ep + (n.max(1) - 1) * t, ep + n * t, ep),
+                );
+            }
         }
         if let Some((e, se, ep0)) = last.get(&sm.host) {
             if sm.elapsed < *e || sm.sim_elapsed < *se || sm.since_epoch < *ep0 {
@@ -430,6 +468,12 @@ fn scenario(s: Scn) -> ScenarioOut {
     out.count("bounces", bounces);
     out.count("late_registrations", late);
     out.count("step_errs_outside_oracle", ex.step_errs);
+    out.count("steps_past_simulation_duration", ex.past_duration);
+    if let Some(d) = s.duration_us {
+        if d % s.tick_us != 0 && d < s.steps * s.tick_us {
+            out.count("durations_not_a_multiple_of_tick_crossed", 1);
+        }
+    }
     out.saw("tick_us", s.tick_us.to_string());
     if s.epoch_zero {
         out.count("scenarios_with_epoch_unix_epoch", 1);
@@ -495,12 +539,12 @@ pub fn run(ctx: &Ctx) -> ! {
 fn fin() -> Finish<'static> {
     Finish {
         level: "exploration",
-        rule: "seeded scenarios: tick in {0.5,1,1.5,2,2.5,3,5,7,10,50 ms}, 1-4 hosts/clients (some registered between steps), 1-3 tasks each running sleep/timeout/interval/yield scripts, crash/bounce schedule, random order on/off; non-trivial = >=10 clock samples and >=1 crash/bounce/late registration; distinct = digest of (tick, all samples)",
+        rule: "seeded scenarios: tick in {0.5,1,1.5,2,2.5,3,5,7,10,50 ms}, 1-4 hosts/clients (some registered between steps), 1-3 tasks each running sleep/timeout/interval/yield scripts, crash/bounce schedule, random order on/off, simulation_duration far away or anywhere inside the run (not a multiple of the tick), a file written and its mtime read back at every clock sample; non-trivial = >=10 clock samples and >=1 crash/bounce/late registration; distinct = digest of (tick, all samples)",
         assumptions: vec![
-            "steps that return Err are outside the oracle (none are generated)".into(),
+            "steps that return Err for another reason than the configured duration are outside the oracle (none are generated)".into(),
             "the step a sample belongs to comes from the harness's own step counter".into(),
         ],
         min_distinct: 20,
-        required_counters: vec!["timer_observations", "samples_after_bounce", "samples_after_bounce_of_finished_host", "scenarios_with_epoch_unix_epoch", "controller_samples", "late_registrations"],
+        required_counters: vec!["timer_observations", "samples_after_bounce", "samples_after_bounce_of_finished_host", "scenarios_with_epoch_unix_epoch", "controller_samples", "late_registrations", "file_timestamps_observed", "durations_not_a_multiple_of_tick_crossed", "steps_past_simulation_duration"],
     }
 }
